@@ -30,7 +30,6 @@ from __future__ import annotations
 
 import itertools
 import math
-import os
 import random
 
 import numpy as np
@@ -57,17 +56,22 @@ SHARDS = {"quick": 8, "thorough": 16}
 RULE = (
     "JSON circuit descriptions on 1..3 qubits: <= 8 gates from h,x,y,z,rx,ry,rz,u,p,cz,cx "
     "(angles from U(-2pi,2pi) or atoms 0, +-pi/4, +-pi/2, +-pi, +-3pi/2, +-2pi, +-1e-9, 1e-7), "
-    "<= 2 entangling gates (3 only in the thorough 2-qubit part: Create builds a dense "
-    "dim x dim operator), optional mid-circuit measure(q->c) rounds followed by if_test((c,v)) "
-    "blocks of single-qubit gates on one unmeasured qubit, further gates on unmeasured "
-    "qubits, a drawn analysis layer of single-qubit gates, then a drawn subset of the "
-    "remaining qubits is measured (the rest is read from the final Fock state). main: k-th "
-    "measurement writes clbit k; lowcut: no entangling gate and all but one qubit measured "
-    "(post-measurement cutoff 2); clbit_order / multi_qubit_body / else_body: the shapes "
-    "the main generator leaves out (clbit index != measurement position, conditioned block "
-    "on two qubits, else branch). Non-trivial = >= 2 qubits, >= 1 entangling gate, >= 2 "
-    "single-qubit gates of different kinds at least one of them non-diagonal, reference "
-    "distribution not a point mass; distinct by the full description."
+    "<= 2 entangling gates (3 only in the 2-qubit three_cz part: Create builds a dense "
+    "dim x dim operator), optional mid-circuit measure(q->c) rounds followed by "
+    "if_test((c,v)) blocks (condition on any previously written clbit, body of single-qubit "
+    "gates on one or several unmeasured qubits, optional else branch), further gates on "
+    "unmeasured qubits, a drawn analysis layer of single-qubit gates, then a drawn subset "
+    "of the remaining qubits is measured (the rest is read from the final Fock state); "
+    "measurement k writes clbit k or, in a third of the cases, a drawn injection "
+    "positions -> clbits. main mixes all shapes; lowcut (no entangling gate, all but one "
+    "qubit measured: post-measurement cutoff 2), leak_condition (condition on a clbit "
+    "measured after an entangling gate and after another measurement), clbit_order, "
+    "multi_qubit_body, else_body force one shape each (regression probes of the four "
+    "defects found by this check); block_rejects enumerates cz/cx/measure/nested if inside "
+    "a block and a condition on an unwritten clbit, which must raise ValueError. "
+    "Non-trivial = >= 2 qubits, >= 1 entangling gate, >= 2 single-qubit gates of different "
+    "kinds at least one of them non-diagonal, reference distribution not a point mass; "
+    "distinct by the full description."
 )
 ASSUMPTIONS = [
     "trusted base: Qiskit's gate matrices (gate.to_matrix(), cross-checked against "
@@ -75,15 +79,19 @@ ASSUMPTIONS = [
     "the KLM CZ gadget with the exact angles atan(sqrt 2), acos(sqrt((3+sqrt 6)/6)) is the "
     "intended gate (self-checked: equals sqrt(2/27)*CZ on the code space); the tolerance is "
     "the propagated effect of rounding them to 54.74 / 17.63 degrees",
-    "gates on an already measured qubit, entangling gates inside conditioned blocks and "
-    "register-valued conditions cannot be expressed by the photonic program and are not "
-    "generated",
+    "gates on an already measured qubit and register-valued conditions cannot be expressed "
+    "by the photonic program and are not generated; entangling gates, measurements and "
+    "nested blocks inside a conditioned block and conditions on a never-written clbit are "
+    "documented rejections (ValueError), asserted in block_rejects",
+    "a measurement outcome outside the dual-rail code space (possible with ~1e-7 "
+    "probability because of the rounded KLM angles) satisfies neither a condition nor its "
+    "else branch; such branches are counted as leakage",
 ]
-# Low on purpose: after a failure the evaluations are dominated by Hypothesis' shrink
-# candidates (small circuits without entangling gates), and a floor miss would turn a
-# detected violation into exit 2.  Unchanged tree: adaptive ~0.6, lowcut ~0.4, ent>=1 ~0.3.
-FLOORS = {"adaptive": 0.05, "lowcut": 0.02, "ent>=1": 0.03, "readout_state": 0.05,
-          "readout_measure": 0.05}
+# Evaluated on quiet full runs only.  Measured on the current tree (seed 1): see the
+# class histogram in evidence/C19.json.
+FLOORS = {"adaptive": 0.15, "lowcut": 0.05, "ent>=1": 0.15, "readout_state": 0.1,
+          "readout_measure": 0.1, "out_of_order": 0.05, "multi_qubit_body": 0.04,
+          "has_else": 0.05, "cond_after_ent_and_meas": 0.01}
 
 SINGLE = ["h", "x", "y", "z", "rx", "ry", "rz", "u", "p"]
 DIAGONAL = {"z", "rz", "p"}
@@ -173,8 +181,6 @@ def amp_error(k: int):
     return e_c, e_l
 
 
-LEAK_BUCKET = "C19:non-code-outcome:condition-raises"
-
 # --------------------------------------------------------------- description helpers
 
 
@@ -187,8 +193,9 @@ def unsafe_clbits(ops):
     """Clbits whose measurement comes after an entangling gate *and* after another
     measurement that followed that gate: the earlier measurement renormalises the heralded
     state, so the ~1e-7 leakage of the rounded KLM angles survives piquasso's
-    isclose(p, 0) filter as a non-code outcome, on which the translated condition raises
-    (LEAK_BUCKET)."""
+    isclose(p, 0) filter as a non-code outcome.  A condition on such a clbit used to raise
+    (fixed in ba8087b: a non-code outcome satisfies neither branch); the shape is kept as
+    a class and forced in the leak_condition part."""
     ent_seen, meas_since, unsafe = False, 0, set()
     for op in ops:
         if op["g"] == "measure":
@@ -235,7 +242,7 @@ def features(desc):
     f["rich_singles"] = len(kinds) >= 2 and any(x not in DIAGONAL for x in kinds)
     unsafe = unsafe_clbits(ops)
     f["unsafe_cl"] = sorted(unsafe)
-    f["cond_on_unsafe"] = any(op["c"] in unsafe for op in ifs)
+    f["cond_after_ent_and_meas"] = any(op["c"] in unsafe for op in ifs)
     f["skipped_phase"] = sum(abs(g["p"][0]) for g in gates
                              if g["g"] == "p" and abs(g["p"][0]) <= 1.0000001e-8)
     return f
@@ -283,15 +290,7 @@ def prop(case, ctx):
     desc = {"n": case["n"], "ncl": case["ncl"], "ops": case["ops"]}
     f = features(desc)
     n, k, meas = f["n"], f["k"], f["meas"]
-    # failures in the shapes that the main generator leaves out are attributed to them
-    if f["out_of_order"]:
-        pre = "C19:clbit-out-of-order"
-    elif f["multi_qubit_body"]:
-        pre = "C19:multi-qubit-body"
-    elif f["has_else"]:
-        pre = "C19:else-body"
-    else:
-        pre = "C19"
+    pre = "C19"
 
     ref = qr.qubit_outcome_distribution(desc)
     point_mass = max(ref.values()) > 1 - 1e-6
@@ -301,7 +300,7 @@ def prop(case, ctx):
     if k >= 1:
         classes.append("ent>=1")
     for name in ("adaptive", "lowcut", "out_of_order", "multi_qubit_body", "has_else",
-                 "cond_on_unsafe"):
+                 "cond_after_ent_and_meas"):
         if f[name]:
             classes.append(name)
     if f["n_if"]:
@@ -310,8 +309,6 @@ def prop(case, ctx):
         classes.append("partial_measurement")
     nontrivial = n >= 2 and k >= 1 and f["rich_singles"] and not point_mass
     ctx.case(case, nontrivial, classes)
-    if f["unsafe_cl"] and not f["cond_on_unsafe"] and pre == "C19":
-        ctx.exclude(LEAK_BUCKET)
 
     # ---- translate --------------------------------------------------------------
     qc = build_qiskit(desc)
@@ -332,8 +329,6 @@ def prop(case, ctx):
     try:
         res = sim.execute(prog, shots=None)
     except Exception as e:
-        if "Unexpected outcomes" in str(e) and pre == "C19":
-            raise Violation(LEAK_BUCKET, f"exact execution raised {e!r}") from None
         raise Violation(f"{pre}:execute:raises:{type(e).__name__}",
                         f"exact execution raised {e!r}") from None
 
@@ -429,9 +424,6 @@ def prop(case, ctx):
         res2 = sim2.execute(dual_rail_encode_from_qiskit(qc), shots=shots)
         raw = res2.samples
     except Exception as e:
-        if "Unexpected outcomes" in str(e) and k >= 1 and leak_bound * shots >= 1e-9:
-            ctx.count("shots_non_code_outcome_in_condition")   # probability ~ leakage
-            return
         raise Violation(f"{pre}:shots:raises:{type(e).__name__}",
                         f"execution with shots={shots} raised {e!r}") from None
     if not 1 <= len(raw) <= shots:
@@ -496,30 +488,35 @@ def gate_block(draw, qubits, count, ent_budget):
 
 
 @st.composite
-def if_block(draw, written, targets, multi=False, orelse=False):
+def if_block(draw, written, targets, multi=None, orelse=None):
+    """multi / orelse: True = forced, False = never, None = drawn (one in three)."""
     c = draw(st.sampled_from(written))
     v = draw(st.integers(0, 1))
+    if multi is None:
+        multi = len(targets) >= 2 and draw(st.integers(0, 2)) == 0
+    if orelse is None:
+        orelse = draw(st.integers(0, 2)) == 0
     if multi:
         a = draw(st.sampled_from(targets))
         b = draw(st.sampled_from([q for q in targets if q != a]))
         body = [draw(single_gate([a])), draw(single_gate([b]))]
         if draw(st.booleans()):
-            body.append(draw(single_gate([a, b])))
+            body.append(draw(single_gate(targets)))
         body = draw(st.permutations(body))
     else:
         t = draw(st.sampled_from(targets))
         body = [draw(single_gate([t])) for _ in range(draw(st.integers(1, 2)))]
     op = {"g": "if", "c": c, "v": v, "body": list(body)}
     if orelse:
-        t = body[0]["q"][0]
-        op["orelse"] = [draw(single_gate([t])) for _ in range(draw(st.integers(1, 2)))]
+        # the else branch may act on other qubits than the body
+        op["orelse"] = [draw(single_gate(targets)) for _ in range(draw(st.integers(1, 2)))]
     return op
 
 
 @st.composite
 def circuit(draw, mode="main", tier="quick"):
-    """mode: main | lowcut | leak_condition | clbit_order | multi_qubit_body | else_body |
-    three_cz"""
+    """mode: main (all shapes mixed) | lowcut | leak_condition | clbit_order |
+    multi_qubit_body | else_body (one shape forced each) | three_cz"""
     if mode == "lowcut":
         n = draw(st.sampled_from([2, 2, 3]))
         ent = [0]
@@ -599,19 +596,18 @@ def circuit(draw, mode="main", tier="quick"):
                 ops.append({"g": "measure", "q": [q], "c": nmeas})
                 written.append(nmeas)
                 nmeas += 1
-            unsafe = unsafe_clbits(ops)
             if mode == "leak_condition":
+                unsafe = unsafe_clbits(ops)
                 usable = [c for c in written if c in unsafe]
-            elif mode == "main" or mode == "lowcut":
-                usable = [c for c in written if c not in unsafe]
             else:
-                usable = [c for c in written if c not in unsafe] or written
+                usable = list(written)
             n_if = draw(st.integers(0, 2)) if mode == "main" else draw(st.integers(1, 2))
             for _ in range(n_if):
                 if budget[0] <= 0 or not usable:
                     break
-                blk = draw(if_block(usable, free, multi=(mode == "multi_qubit_body"),
-                                    orelse=(mode == "else_body")))
+                blk = draw(if_block(usable, free,
+                                    multi=True if mode == "multi_qubit_body" else None,
+                                    orelse=True if mode == "else_body" else None))
                 budget[0] -= len(blk["body"]) + len(blk.get("orelse", []))
                 ops.append(blk)
             ops.extend(draw(gate_block(free, take(0, 2), ent)))
@@ -632,12 +628,13 @@ def circuit(draw, mode="main", tier="quick"):
         ops.append({"g": "measure", "q": [q], "c": nmeas})
         nmeas += 1
     ncl = max(n, nmeas)
-    if mode == "clbit_order":
-        # re-assign the clbits with a drawn non-identity injection positions -> clbits
-        ncl = n + draw(st.integers(0, 1))
+    if nmeas and (mode == "clbit_order" or (mode == "main" and draw(st.integers(0, 2)) == 0)):
+        # re-assign the clbits with a drawn injection positions -> clbits (forced to differ
+        # from the identity in the clbit_order part)
+        ncl = max(n, nmeas) + draw(st.integers(0, 1))
         pool = list(range(ncl))
         perm = list(draw(st.permutations(pool)))[:nmeas]
-        if perm == list(range(nmeas)):
+        if mode == "clbit_order" and perm == list(range(nmeas)):
             perm = perm[::-1] if nmeas >= 2 else [pool[-1]]
         for op in ops:
             if op["g"] in ("measure", "if"):
@@ -645,6 +642,54 @@ def circuit(draw, mode="main", tier="quick"):
     return {"n": n, "ncl": ncl, "ops": ops,
             "shots": draw(st.sampled_from([1, 3, 8, 16])),
             "seed": draw(st.integers(0, 2 ** 31 - 1))}
+
+
+# --------------------------------------------------------------- documented rejections
+
+
+def reject_cases(tier):
+    """Conditioned blocks that the photonic program cannot express: an entangling gate
+    (its ancillas / heralding cannot be conditional), a measurement, a nested block -
+    alone or after a supported gate, in the body or in the else branch - and a condition
+    on a clbit that no measurement has written."""
+    bad = {
+        "cz": {"g": "cz", "q": [1, 2]},
+        "cx": {"g": "cx", "q": [2, 1]},
+        "measure": {"g": "measure", "q": [1], "c": 1},
+        "nested_if": {"g": "if", "c": 0, "v": 1, "body": [{"g": "x", "q": [2]}]},
+    }
+    out = []
+    for kind, op in bad.items():
+        for lead in (False, True):
+            for branch in ("body", "orelse"):
+                for v in (0, 1):
+                    block = ([{"g": "h", "q": [1]}] if lead else []) + [op]
+                    blk = {"g": "if", "c": 0, "v": v, "body": block}
+                    if branch == "orelse":
+                        blk = {"g": "if", "c": 0, "v": v, "body": [{"g": "z", "q": [2]}],
+                               "orelse": block}
+                    out.append({"kind": kind, "n": 3, "ncl": 3, "ops": [
+                        {"g": "h", "q": [0]}, {"g": "measure", "q": [0], "c": 0}, blk]})
+    for c in (1, 2):
+        out.append({"kind": "unwritten_clbit", "n": 3, "ncl": 3, "ops": [
+            {"g": "h", "q": [0]}, {"g": "measure", "q": [0], "c": 0},
+            {"g": "if", "c": c, "v": 1, "body": [{"g": "x", "q": [1]}]}]})
+    return out
+
+
+def prop_reject(case, ctx):
+    ctx.case(case, True, ["reject:" + case["kind"]])
+    qc = build_qiskit(case)
+    try:
+        dual_rail_encode_from_qiskit(qc)
+    except ValueError:
+        return
+    except Exception as e:
+        raise Violation(f"C19:block-reject:{case['kind']}:raises:{type(e).__name__}",
+                        f"expected ValueError, got {e!r}") from None
+    raise Violation(f"C19:block-reject:{case['kind']}:accepted",
+                    "dual_rail_encode_from_qiskit translated a conditioned block that the "
+                    "photonic program cannot express")
 
 
 def parts(tier):
@@ -674,8 +719,5 @@ def parts(tier):
                    examples={"quick": 1, "thorough": 32},
                    budget_s={"quick": 60, "thorough": 900},
                    only_shard0=(tier == "quick"), shrink=False))
-    if os.environ.get("C19_ONLY_SUPPORTED"):
-        # sensitivity runs: leave out the parts that fail on the unchanged tree (genuine
-        # defects of the translation), so that exit 1 means "mutant detected"
-        ps = [p for p in ps if p.name in ("main", "lowcut", "three_cz")]
+    ps.append(Part("block_rejects", prop_reject, kind="enum", cases=reject_cases))
     return ps
